@@ -27,28 +27,36 @@ package sdk
 // Chain evaluation is fail-open per link: a link may clear keep bits only through a well-formed verdict (nil
 // error, no panic, exactly one bit per trace); otherwise the running mask is left untouched.
 //
+// decideFailed (ghost) records whether the last Decide call returned an error
+//@ ghost var decideFailed bool
 //@ func Sampler.Decide
 //@   assumed plugin code behind an interface: arbitrary result, may return an error, may panic; it must not retain or mutate engine storage (documented READ-ONLY contract)
 //@   opt may-panic
+//@   modifies decideFailed
 //@   ensures result0.Keep == nil || fresh(result0.Keep)
+//@   ensures decideFailed == (result1 != nil)
 //@ func func:onBypass
 //@   assumed observer callback supplied by the host (logging / metrics only)
 //
 //@ func evaluateChainLink
 //@   mode int
 //@   requires batch != nil && sampler != nil
+//@   modifies decideFailed
 //@   ensures  wellformed: result1 ==> len(result0.Keep) == len(batch.Traces)
+//@   ensures  no-verdict-from-a-failed-link: result1 ==> !decideFailed
 //@   ensures  foreign:    result1 ==> result0.Keep == nil || fresh(result0.Keep)
 //@ func applyChainLink
 //@   mode int
 //@   requires batch != nil && sampler != nil && len(mask) == len(batch.Traces)
 //@   modifies mask[0:len(mask)]
+//@   modifies decideFailed
 //@   ensures  narrows: forall i :: 0 <= i && i < len(mask) ==> (mask[i] ==> old(mask[i]))
 //@   loop 0 invariant forall i :: 0 <= i && i < len(mask) ==> (mask[i] ==> old(mask[i]))
 //@ func EvaluateChainInto
 //@   mode int
 //@   requires batch != nil
 //@   modifies mask[0:cap(mask)]
+//@   modifies decideFailed
 //@   ensures  aligned:  len(result.Keep) == len(batch.Traces)
 //@   ensures  nolinks:  len(samplers) == 0 ==> (forall i :: 0 <= i && i < len(result.Keep) ==> result.Keep[i])
 //@   ensures  nillink:  len(samplers) == 1 && samplers[0] == nil ==> (forall i :: 0 <= i && i < len(result.Keep) ==> result.Keep[i])
